@@ -1,6 +1,7 @@
 import contextlib
 import errno
 import os
+import select
 import signal
 from typing import List, Optional, Tuple  # pylint: disable=unused-import
 
@@ -35,6 +36,14 @@ class SigchldHelper:
             self._read_pipe = None
 
     def wait(self) -> Tuple[int, int]:
+        # N.B. We must not block indefinitely here. If SIGCHLD arrives right
+        # before we enter a blocking system call, the interpreter only records
+        # that the signal was received; our (Python-level) handler runs once
+        # the main thread executes bytecode again. If no further signal arrives,
+        # a plain blocking `read()` would never return. Waiting with a timeout
+        # gives the handler a chance to run.
+        while len(select.select([self._read_pipe], [], [], 0.05)[0]) == 0:
+            pass
         _ = os.read(self._read_pipe, 1)
         return self._extract_any()
 
